@@ -64,9 +64,9 @@ theorem cut_spec (v : Bytes) (a c : Bytes) : cut v = some (a, c) ↔ v = a ++ 32
             cases this
             rw [h1.1]
 
-/-- **the token check**: with a token configured, a call is admitted iff the FIRST authorization
+/-- **the token check**: with a token configured, a call is let through iff the FIRST authorization
 value is `<scheme> <token>` where the scheme (the part before the first space) is "bearer" in any
-letter case and the rest is EXACTLY the configured token — nothing admitted without the header, with
+letter case and the rest is EXACTLY the configured token — nothing let through without the header, with
 an empty value, with another scheme, with a prefix, suffix, case variant or padded form of the token -/
 theorem c17_token (configured : Bytes) (hc : configured ≠ []) (values : List Bytes) :
     authorize configured values = true ↔
@@ -112,22 +112,22 @@ theorem c17_token (configured : Bytes) (hc : configured ≠ []) (values : List B
           cases this
           simp [isBearer, hb]
 
-/-- with no token configured everything is admitted -/
+/-- with no token configured everything is let through -/
 theorem c17_no_token_configured (values : List Bytes) : authorize [] values = true := rfl
 
 /-- **only the protected services are affected, each by its own token**: KV and Cluster calls are
-admitted whatever the metadata; a Tables call is decided by the tables token alone, a Maintenance
+let through whatever the metadata; a Tables call is decided by the tables token alone, a Maintenance
 call by the maintenance token alone (so the other service's token does not help) -/
 theorem c17_services (t : Tokens) (values : List Bytes) :
-    admit t .kv values = true ∧ admit t .cluster values = true ∧
-    admit t .tables values = authorize t.tables values ∧
-    admit t .maintenance values = authorize t.maintenance values := ⟨rfl, rfl, rfl, rfl⟩
+    allowCall t .kv values = true ∧ allowCall t .cluster values = true ∧
+    allowCall t .tables values = authorize t.tables values ∧
+    allowCall t .maintenance values = authorize t.maintenance values := ⟨rfl, rfl, rfl, rfl⟩
 
 /-- the other service's token is refused (when the two differ) -/
 theorem c17_other_token (t : Tokens) (h1 : t.tables ≠ []) (h2 : t.tables ≠ t.maintenance) (scheme : Bytes)
     (hsp : (32 : UInt8) ∉ scheme) (rest : List Bytes) :
-    admit t .tables ((scheme ++ 32 :: t.maintenance) :: rest) = false := by
-  have : ¬ admit t .tables ((scheme ++ 32 :: t.maintenance) :: rest) = true := by
+    allowCall t .tables ((scheme ++ 32 :: t.maintenance) :: rest) = false := by
+  have : ¬ allowCall t .tables ((scheme ++ 32 :: t.maintenance) :: rest) = true := by
     intro h
     have h' : authorize t.tables ((scheme ++ 32 :: t.maintenance) :: rest) = true := h
     obtain ⟨s, r, hv, hs, _⟩ := (c17_token t.tables h1 _).mp h'
@@ -138,7 +138,7 @@ theorem c17_other_token (t : Tokens) (h1 : t.tables ≠ []) (h2 : t.tables ≠ t
     rw [hl] at hr
     have := (Prod.mk.inj (Option.some.inj hr)).2
     exact h2 this.symm
-  cases h : admit t .tables ((scheme ++ 32 :: t.maintenance) :: rest) <;> simp_all
+  cases h : allowCall t .tables ((scheme ++ 32 :: t.maintenance) :: rest) <;> simp_all
 
 /-- a token that differs from the configured one in any way — prefix, suffix, letter case, padding —
 is refused, under every scheme spelling -/
